@@ -160,6 +160,21 @@ def check_subset(c):
                     res.check(np.abs(vals - want).max() <= 1e-12 * (1 + np.abs(want).max()), 'class.call', case,
                               'ANOVA.__call__ differs from the recomputed model', tags)
                     res.check(abs(obj.f0 - f0) <= 1e-13 * (1 + abs(f0)), 'class.f0', case, 'constant term is not the sample mean', tags)
+                    # history on one model object: cores() more than once (several ranks), then evaluation again
+                    rr = 2 if order == 1 else max(2, r)
+                    with warnings.catch_warnings():
+                        warnings.simplefilter('ignore')
+                        D1 = ref.dense(obj.cores(rr, 0.))
+                        D2 = ref.dense(obj.cores(rr + 1, 0.))
+                        D3 = ref.dense(obj.cores(rr, 0.))
+                        vals2 = obj(pts)
+                    sc = 1e-9 * (1 + np.abs(D1).max())
+                    res.check(np.abs(D3 - D1).max() <= sc, 'class.reuse', case,
+                              lambda: 'third cores() call on the same model object differs from the first by %.3e' % np.abs(D3 - D1).max(), tags + ['reuse'])
+                    if order == 1:
+                        res.check(np.abs(D2 - D1).max() <= sc and np.abs(D1 - M1).max() <= sc, 'class.reuse', case,
+                                  lambda: 'cores() at another rank on the same object differs by %.3e' % np.abs(D2 - D1).max(), tags + ['reuse'])
+                    res.check(np.array_equal(vals2, vals), 'class.reuse', case, 'ANOVA.__call__ changed after cores() were built', tags + ['reuse'])
             if len(sel) < len(grid) or dup is not None:
                 res.nt((c['grid'], mask, dup))
     return res
